@@ -652,7 +652,43 @@ class Normalizer:
             return False
         return True
 
+    def _eye_rows(self, st, env):
+        """N33: `for row in np.eye(n)` / `for i, row in enumerate(np.eye(n))` visits the unit vectors e_0 .. e_{n-1}: it is
+        `for i in range(n): row = [0] * n; row[i] = 1; ...`"""
+        if not isinstance(st, ast.For) or st.orelse:
+            return None
+        it, tgt = st.iter, st.target
+        enum = isinstance(it, ast.Call) and isinstance(it.func, ast.Name) and it.func.id == 'enumerate' and len(it.args) == 1 and not it.keywords
+        src_ = it.args[0] if enum else it
+        if enum and not (isinstance(tgt, (ast.Tuple, ast.List)) and len(tgt.elts) == 2 and all(isinstance(x, ast.Name) for x in tgt.elts)):
+            return None
+        if not enum and not isinstance(tgt, ast.Name):
+            return None
+        try:
+            v = self.expr(src_, dict(env))
+        except Unsupported:
+            return None
+        if not (isinstance(v, tuple) and v[0] == 'call' and v[1] in ('numpy.eye', 'numpy.identity') and len(v[2]) == 1 and not v[3]):
+            return None
+        nname = '$eye_n_%d' % st.lineno
+        env[nname] = v[2][0]
+        idx = tgt.elts[0].id if enum else '$eye_i_%d' % st.lineno
+        row = tgt.elts[1].id if enum else tgt.id
+        L, S = ast.Load(), ast.Store()
+        pre = [ast.Assign(targets=[ast.Name(id=row, ctx=S)],
+                          value=ast.BinOp(left=ast.List(elts=[ast.Constant(value=0)], ctx=L), op=ast.Mult(), right=ast.Name(id=nname, ctx=L))),
+               ast.Assign(targets=[ast.Subscript(value=ast.Name(id=row, ctx=L), slice=ast.Name(id=idx, ctx=L), ctx=S)], value=ast.Constant(value=1))]
+        new = ast.For(target=ast.Name(id=idx, ctx=S),
+                      iter=ast.Call(func=ast.Name(id='range', ctx=L), args=[ast.Name(id=nname, ctx=L)], keywords=[]),
+                      body=pre + list(st.body), orelse=[])
+        ast.copy_location(new, st)
+        ast.fix_missing_locations(new)
+        return new
+
     def loop(self, st, env):
+        eye = self._eye_rows(st, env)
+        if eye is not None:
+            st = eye
         self.depth += 1
         self.loop_uid += 1
         d = self.loop_uid
